@@ -20,13 +20,15 @@ import (
 	"verif.local/mc"
 )
 
-var mode = flag.String("vmode", "seq", "seq|race")
+var mode = flag.String("vmode", "seq", "seq|race|sched")
 
 func TestCheck(t *testing.T) {
 	mc.Main(t, "C07", func(r *mc.Run) {
 		switch {
 		case *mode == "race":
 			racePass(r)
+		case *mode == "sched":
+			schedules(r)
 		case server.VerifTSSCap <= 8:
 			smallCap(r)
 		default:
